@@ -25,7 +25,8 @@ EXPLANATION = (
     "supp's region graph; R6 lint's E02/E42 and assist's name branch consult names_at of the "
     "read's own region and position; R7 SourceScope.resolve_star_imports, abstractly interpreted, binds every public name of "
     'every resolvable star import and skips (does not stop at) an unresolvable one. Each failure is a concrete in-domain program class with a '
-    'false E02/E42. The value-level correctness of lookups for arbitrary programs is NOT decided.')
+    'false E02/E42. The value-level correctness of lookups for arbitrary programs is NOT decided.'
+    " Later additions to R5: every region a visit method creates is the final region of the construct or one of its ancestors (no dead end); supp's own names_at / lookup, interpreted on the region graph of every construct rebuilt from its Flow objects in the state the extractor leaves them in (flags and name tables written on regions, back edges through Flow.loop), finds exactly the bindings the graph makes visible; one composed shape (a try body ending in `if ...: raise`) is generated beside the depth-1 shapes.")
 TECHNIQUE = ('abstract interpretation of the extractor over grammar shapes (visitor summaries) + '
              'exhaustiveness/placement/visibility rules against Python-reference tables')
 
